@@ -233,7 +233,7 @@ def run_shards(binary, pid, tier, seed, lane, nshards, extra_env=None, timeout=N
                     hang = json.load(open(outp + ".hang"))
                 except Exception:
                     hang = {"hang": True}
-            failures.append({"shard": i, "rc": rc, "stderr": err.decode("utf8", "replace")[-3000:],
+            failures.append({"shard": i, "rc": rc, "stderr": err.decode("utf8", "replace")[-60000:],
                              "wall_s": dt, "cmd": cmd, "lane": lane, "hang": hang})
     return reports, failures
 
@@ -441,8 +441,11 @@ def finish(agg, pid, tier, seed, t0, meta, floors):
         "wall_s": round(wall, 2),
         "violations": len(unknown),
     }
-    os.makedirs(os.path.join(VERIF, "evidence"), exist_ok=True)
-    json.dump(ev, open(os.path.join(VERIF, "evidence", pid + ".json"), "w"), indent=1, ensure_ascii=False, sort_keys=False)
+    # evidence/<id>.json is what this check observed on /repo as it is now. Runs against a seeded
+    # change (pylane/seeded.py) must not overwrite it: they set JL_EVIDENCE_DIR.
+    evdir = os.environ.get("JL_EVIDENCE_DIR") or os.path.join(VERIF, "evidence")
+    os.makedirs(evdir, exist_ok=True)
+    json.dump(ev, open(os.path.join(evdir, pid + ".json"), "w"), indent=1, ensure_ascii=False, sort_keys=False)
     mons = ", ".join("%s:%d/%d" % (k, m["judged"], m["violations"]) for k, m in sorted(agg["monitors"].items()))
     log("[observed] property=%s tier=%s seed=%d evaluations=%d distinct_nontrivial=%d log_lines_matched=%d lanes=%s" % (
         pid, tier, seed, agg["evaluations"], distinct, agg["log_lines_matched"],
